@@ -141,7 +141,7 @@ func runC18(r *core.Run, tier string) {
 		return
 	}
 	defer env.Close()
-	r.Rule("a case is one generated directory (list file with 0..12 entries, titles with several / leading / trailing spaces, entries without title, blank lines anywhere, with or without final newline, list in a sub-directory, sample contents with back-ticks, %, ###, NUL, CRLF, multi-byte text, empty, no trailing newline; optionally one listed file missing or being a directory (it opens but cannot be read); optionally a README.md present beforehand) processed by each of two builds of the tool (checked-in gen_build_sample_md.go; build_sample_md.fo re-transpiled by the rebuilt fc); README.md is compared byte for byte with a reference renderer; with a missing file the run must exit non-zero and leave README.md as it was; non-trivial = at least 2 entries; distinct by list text")
+	r.Rule("a case is one generated directory (list file with 0..12 entries, titles with several / leading / trailing spaces, entries without title, blank lines anywhere, with or without final newline, list in a sub-directory, sample contents with back-ticks, %, ###, NUL, CRLF, multi-byte text, empty, no trailing newline; optionally one listed file missing or being a directory (it opens but cannot be read); optionally a README.md present beforehand, shorter or longer than the new rendering) processed by each of two builds of the tool (checked-in gen_build_sample_md.go; build_sample_md.fo re-transpiled by the rebuilt fc); README.md is compared byte for byte with a reference renderer; with a missing file the run must exit non-zero and leave README.md as it was; non-trivial = at least 2 entries; distinct by list text")
 	r.Assume("file names contain no spaces and no directory separators", "an entry whose file cannot be read must fail the run (statement: 'fails instead of writing a partial section')")
 	type tool struct{ name, bin string }
 	var tools []tool
@@ -197,7 +197,12 @@ func runC18(r *core.Run, tier string) {
 				}
 			}
 			os.WriteFile(filepath.Join(ld, "list.txt"), []byte(c.listText()), 0o644)
-			const sentinel = "SENTINEL README\n"
+			// the README.md present beforehand is shorter than any rendering in half of the cases and
+			// longer than this rendering in the other half (a regeneration after the list shrank)
+			sentinel := "SENTINEL README\n"
+			if i%2 == 0 {
+				sentinel += strings.Repeat("stale line of an earlier, longer README\n", (len(want)+i%997)/40+1)
+			}
 			if c.sentinel {
 				os.WriteFile(filepath.Join(ld, "README.md"), []byte(sentinel), 0o644)
 			}
